@@ -93,6 +93,7 @@ def check(ctx):
 
 
 def _check_codec(ctx, repo):
+    _check_codec_use(ctx, repo)
     enc = repo.fn(f"{WS}:encode_message")
     dec = repo.fn(f"{WS}:decode_message")
     for f, fn, lossy in ((enc, "dumps", ("sort_keys", "skipkeys", "default", "check_circular", "allow_nan")), (dec, "loads", ("object_hook", "object_pairs_hook", "parse_float", "parse_int", "parse_constant"))):
@@ -120,6 +121,32 @@ def _check_codec(ctx, repo):
                    msg=f"json.{fn}(..., {bad[0] if bad else ''}=...) changes the encoded value: sort_keys reorders dictionary entries and raises TypeError on mixed key types, skipkeys silently drops entries, hooks rewrite values")
         rets = [r for r in walk_local(f.node) if isinstance(r, ast.Return)]
         ctx.ob("C20-R6", f.fq, f"the result of json.{fn} is returned as it is", len(rets) == 1 and any(rets[0].value is c or rets[0].value is getattr(c, "_same_as", None) for c in calls), node=f.node, construct=f"json.{fn} result returned unmodified")
+
+
+def _check_codec_use(ctx, repo):
+    """C20-R7: a message is the value it had when it was sent / when it arrived.
+    (a) the codec functions are plain functions: a caching decorator on decode hands the SAME object to two deliveries of equal frames,
+        and Klong's in-situ dictionary update then shows one delivery's changes in the next;
+    (b) the sender serialises in the caller's activation: encode_message is called directly in the sending method (not inside a nested
+        function / coroutine that runs later on the io loop), so a value changed after the send call cannot change what is sent."""
+    ctx.rule("C20-R7", "message identity: encode/decode are undecorated (no memoisation of decoded objects); the sending method encodes the value in its own activation, before anything is scheduled on the io loop")
+    for name in ("encode_message", "decode_message"):
+        f = repo.fn(f"{WS}:{name}")
+        ctx.instance("C20-R7", f.fq)
+        ctx.ob("C20-R7", f.fq, f"{name} is a plain function (no decorator)", not f.node.decorator_list, node=f.node, construct=f"{name} decorated with {', '.join(src(d)[:40] for d in f.node.decorator_list)}",
+               msg=f"{name} is wrapped by {', '.join(src(d)[:40] for d in f.node.decorator_list)}: a cache returns one shared object for equal frames, so a handler's in-place change of its message is seen by the next delivery of an identical frame")
+    senders = [f for f in repo.all_funcs((WS,)) if f.cls == "NetworkClient" and any(callee_name(c) == "encode_message" for c in ast.walk(f.node) if isinstance(c, ast.Call))]
+    ctx.floor("C20-R7", "NetworkClient methods that encode an outgoing value", len(senders), 1)
+    for f in senders:
+        ctx.instance("C20-R7", f.fq, "encode in the caller's activation")
+        direct = [c for c in calls_in(f.node) if callee_name(c) == "encode_message"]
+        nested = [c for c in ast.walk(f.node) if isinstance(c, ast.Call) and callee_name(c) == "encode_message" and c not in direct]
+        ctx.ob("C20-R7", f.fq, "the outgoing value is encoded in the sending method itself", bool(direct) and not nested, node=(nested[0] if nested else f.node),
+               construct="encode_message called in a nested function of the sender",
+               msg=f"{f.name} defers encode_message to a nested function that runs later on the io loop: a dictionary or list changed after the send call but before that loop turn is sent in its LATER state")
+        scheds = [c for c in calls_in(f.node) if isinstance(c.func, ast.Attribute) and c.func.attr in ("call_soon_threadsafe", "run_coroutine_threadsafe", "create_task", "ensure_future")]
+        if direct and scheds:
+            ctx.ob("C20-R7", f.fq, "encoding precedes the hand-over to the io loop", all(pos(d) < pos(s_) for d in direct for s_ in scheds), node=direct[0], construct="encode after scheduling")
 
 
 def _check_routes(ctx, repo):
@@ -403,6 +430,8 @@ MUTATION_SCOPE = ['web/sys_fn_web:eval_sys_fn_create_web_server',
                   'types:KGFnWrapper.__call__']
 
 SEEDS = [
+    Seed("ws-decode-memoised", "fault", WS, "def decode_message(data):", "@functools.lru_cache(maxsize=256)\ndef decode_message(data):", rule="C20-R7",
+         more=[(WS, "import json\n", "import json\nimport functools\n")]),
     Seed("ws-encode-sort-keys", "fault", WS, "    return json.dumps(msg, cls=NumpyEncoder)", "    return json.dumps(msg, cls=NumpyEncoder, sort_keys=True)", rule="C20-R6"),
     Seed("ws-encode-skipkeys", "fault", WS, "    return json.dumps(msg, cls=NumpyEncoder)", "    return json.dumps(msg, cls=NumpyEncoder, skipkeys=True)", rule="C20-R6"),
     Seed("ws-decode-strips", "fault", WS, "    return json.loads(data)", "    return json.loads(data.strip()[:65536])", rule="C20-R6"),
